@@ -280,16 +280,34 @@ def main():
     flat = [v for _, vals in entries for v in vals]
     qlits = "[" + "; ".join(f"({Fraction(v).numerator} # {Fraction(v).denominator})" for v in flat) + "]"
     etexts.append(f"(let s := qsum {qlits} in [Qfloor s; Qceiling s])")
+    # cost settings: the shipped one and settings with empty / partial class rules and without a default
+    setting = [cfg.include_energy,
+               {"QActivation": [], "QDense": ["op_cost"], "default": ["inputs", "outputs", "parameters", "op_cost"]},
+               {"QConv2D": ["parameters", "op_cost"], "Dense": [], "default": []},
+               {"QDepthwiseConv2D": ["inputs"]}][mi % 4]
     keysets = []
     for cname, vals in entries:
-      keys = cfg.include_energy.get(cname, cfg.include_energy.get("default", []))
+      keys = setting[cname] if cname in setting else setting.get("default", [])
       idx = [["inputs", "outputs", "parameters", "op_cost"].index(k) for k in keys]
       keysets.append((idx, vals))
     lits = "[" + "; ".join("([" + "; ".join(f"{k}%nat" for k in idx) + "], [" +
                            "; ".join(f"({Fraction(v).numerator} # {Fraction(v).denominator})" for v in vals) + "])" for idx, vals in keysets) + "]"
     etexts.append(f"[extract_sum {lits}]")
-    ext = QTools.extract_energy_sum(None, cfg.include_energy, res)
-    eitems.append((mi, total, len(flat), ext, [wm, am, mss, rw]))
+    qobj = QTools.__new__(QTools)
+    try:
+      ext = QTools.extract_energy_sum(qobj, setting, res)
+      prof = QTools.extract_energy_profile(qobj, setting, res)
+    except Exception as e:  # pylint: disable=broad-except
+      rep.violation(f"extract-raises-{mi}", f"extract_energy_sum / extract_energy_profile raised {type(e).__name__}: {str(e)[:200]} for the cost setting {setting}", {})
+      etexts.pop()
+      etexts.pop()
+      continue
+    for (idx, vals), lay in zip(keysets, layers):
+      want_t = sum(vals[k] for k in idx)
+      if abs(prof[lay.name]["total"] - want_t) > 1e-6 * max(1.0, abs(want_t)):
+        rep.violation(f"extract-profile-{mi}-{lay.name}", f"extract_energy_profile: layer {lay.name} ({res[lay.name]['class_name']}) total {prof[lay.name]['total']} but the entries "
+                      f"selected by the cost setting {setting} sum to {want_t}", {"setting": str(setting)})
+    eitems.append((mi, total, len(flat), ext, [wm, am, mss, rw, str(setting)]))
   if etexts:
     outs = vlib.coq_eval(PROP + "_energy", HEADER + "".join(f"Eval vm_compute in {t}.\n" for t in etexts))
     for k, (mi, total, nent, ext, opts) in enumerate(eitems):
